@@ -43,13 +43,14 @@ theorem gen_reader_eq (remain x : Int) :
   · unfold Gen.C34.brAccount brAccount; split <;> rfl
   · unfold Gen.C34.brClamp brClamp; split <;> rfl
 
-theorem gen_bodyKind_eq (cl ntr : Int) (isHead : Bool) :
+theorem gen_bodyKind_eq (cl ntr st : Int) (isHead : Bool) :
     Gen.C34.srvHasBody cl ntr = some (srvHasBody cl ntr) ∧
-    Gen.C34.cliHasBody cl isHead ntr = some (cliHasBody cl isHead ntr) ∧
+    Gen.C34.cliBodyLen cl isHead st = some (cliBodyLen cl isHead st) ∧
+    Gen.C34.cliHasBody cl ntr = some (cliHasBody cl ntr) ∧
     Gen.C34.actualContentLength isHead cl = some (actualContentLength isHead cl) := by
-  refine ⟨rfl, ?_, ?_⟩
-  · unfold Gen.C34.cliHasBody cliHasBody
-    cases isHead <;> simp
+  refine ⟨rfl, ?_, rfl, ?_⟩
+  · unfold Gen.C34.cliBodyLen cliBodyLen
+    split <;> rfl
   · unfold Gen.C34.actualContentLength actualContentLength
     cases isHead <;> simp
     split <;> rfl
@@ -728,11 +729,11 @@ def ServerNoSilentMismatch : Prop :=
     cl ≥ 0 → ((bodyOf fs).length : Int) ≠ cl →
     (recvBody (serverBodyKind cl ntr) fs .fin ks).2.1 ≠ some .eof
 
-/-- The same for the client side (response body). -/
+/-- The same for the client side (response body of a status that can carry content, not to HEAD). -/
 def ClientNoSilentMismatch : Prop :=
-  ∀ (cl : Int) (isHead : Bool) (ntr : Nat) (fs : List (Frame Unit)) (ks : List Nat),
-    cl ≥ 0 → isHead = false → ((bodyOf fs).length : Int) ≠ cl →
-    (recvBody (clientBodyKind cl isHead ntr) fs .fin ks).2.1 ≠ some .eof
+  ∀ (cl : Int) (st : Nat) (ntr : Nat) (fs : List (Frame Unit)) (ks : List Nat),
+    cl ≥ 0 → st ≠ 304 → ((bodyOf fs).length : Int) ≠ cl →
+    (recvBody (clientBodyKind cl false st ntr) fs .fin ks).2.1 ≠ some .eof
 
 /-- The statement is FALSE on the code as it is: `Content-Length: 0` without declared trailers makes
 both sides use `http.NoBody`, which reports a clean EOF without looking at the stream. -/
@@ -742,7 +743,7 @@ theorem serverNoSilentMismatch_full_false : ¬ ServerNoSilentMismatch := by
 
 theorem clientNoSilentMismatch_full_false : ¬ ClientNoSilentMismatch := by
   intro h
-  exact h 0 false 0 [Frame.data [7]] [1] (by decide) rfl (by decide) (by decide)
+  exact h 0 200 0 [Frame.data [7]] [1] (by decide) (by decide) (by decide) (by decide)
 
 /-- Outside the region `Content-Length = 0 ∧ no declared trailers` the statement holds. -/
 theorem serverNoSilentMismatch_holds_partial (cl : Int) (ntr : Nat) (fs : List (Frame Unit))
@@ -756,16 +757,58 @@ theorem serverNoSilentMismatch_holds_partial (cl : Int) (ntr : Nat) (fs : List (
   rw [hk]
   exact read_mismatch_never_clean cl fs .fin ks hcl hne
 
-theorem clientNoSilentMismatch_holds_partial (cl : Int) (ntr : Nat) (fs : List (Frame Unit))
-    (ks : List Nat) (hcl : cl ≥ 0) (hne : ((bodyOf fs).length : Int) ≠ cl)
+theorem clientNoSilentMismatch_holds_partial (cl : Int) (st ntr : Nat) (fs : List (Frame Unit))
+    (ks : List Nat) (hcl : cl ≥ 0) (hst : st ≠ 304) (hne : ((bodyOf fs).length : Int) ≠ cl)
     (hregion : ¬ (cl = 0 ∧ ntr = 0)) :
-    (recvBody (clientBodyKind cl false ntr) fs .fin ks).2.1 ≠ some .eof := by
-  have hk : clientBodyKind cl false ntr = .reader cl := by
-    unfold clientBodyKind cliHasBody
-    simp
+    (recvBody (clientBodyKind cl false st ntr) fs .fin ks).2.1 ≠ some .eof := by
+  have hk : clientBodyKind cl false st ntr = .reader cl := by
+    have hs : ¬ ((st : Int) = 304) := by omega
+    unfold clientBodyKind cliHasBody cliBodyLen
+    simp [hs]
     omega
   rw [hk]
   exact read_mismatch_never_clean cl fs .fin ks hcl hne
+
+/-! ## Bodyless responses (repaired defect `bodyless-response-content-length-read-error`) -/
+
+/-- A response to HEAD and a 304 response carry no DATA frames.  Whatever Content-Length they declare
+(RFC 9110 8.6: it describes the selected representation) and whether or not trailers are announced,
+the client's body reads as a clean, empty body once enough non-empty reads are made — never as
+"body shorter than content-length". -/
+theorem bodyless_response_reads_clean (cl : Int) (isHead : Bool) (st ntr : Nat) (fs : List (Frame Unit))
+    (ks : List Nat) (hbl : isHead = true ∨ st = 304) (hno : bodyOf fs = [])
+    (hpos : ∀ k ∈ ks, 0 < k) (hlen : fs.length < ks.length) :
+    recvBody (clientBodyKind cl isHead st ntr) fs .fin ks =
+      ([], some .eof, (match clientBodyKind cl isHead st ntr with | .noBody => none | .reader _ => trailerOf fs)) := by
+  have hb : cliBodyLen cl isHead st = 0 := by
+    unfold cliBodyLen
+    have : isHead = true ∨ (st : Int) = 304 := by rcases hbl with h | h <;> simp [h]
+    simp [this]
+  unfold clientBodyKind
+  simp only [hb]
+  by_cases hk : cliHasBody 0 ntr = true
+  · simp only [hk, if_true, recvBody]
+    have := read_complete (0 : Int) fs ks hpos (by rw [hno]; simpa using hlen) (by rw [hno]; simp)
+    rw [hno] at this
+    obtain ⟨a, b, c⟩ := this
+    exact Prod.ext a (Prod.ext b c)
+  · simp only [hk, recvBody]
+    cases ks with
+    | nil => simp at hlen
+    | cons k ks => simp
+
+/-- The old failing input: the handler sets `Content-Length: 10` and answers 304 — no DATA on the
+wire; the client now reads a clean empty body. -/
+example :
+    let evs := (respond (α := Unit) false 10 (some 304) [] none).1
+    evFrames evs = [] ∧ recvBody (clientBodyKind 10 false 304 0) (evFrames evs) .fin [1] = ([], some .eof, none) := by
+  decide
+
+/-- A bodyless response that nevertheless carries DATA while trailers are announced is an error. -/
+example :
+    (recvBody (clientBodyKind 3 true 200 1) [Frame.data [1, 2, 3], Frame.headers ()] .fin [9, 9]).2.1
+      = some .errLong := by
+  decide
 
 /-! ## Byte-level framing and message composition -/
 
@@ -928,12 +971,6 @@ example :
 example :
     respond (α := Nat) false 3 none [.write [1, 2], .write [3, 4]] none =
       ([.respHeaders 200, .frame (.data [1, 2, 3]), .flush, .fin], [(2, .nil), (1, .contentLength)]) := by
-  decide
-
-/-- known finding `bodyless-response-content-length-read-error` on the model: 304 with Content-Length 10. -/
-example :
-    let evs := (respond (α := Nat) false 10 (some 304) [] none).1
-    evFrames evs = [] ∧ (recvBody (clientBodyKind 10 false 0) (evFrames evs) .fin [1]).2.1 = some .errShort := by
   decide
 
 /-- byte level: HEADERS "h", DATA "ab", DATA "c", trailing HEADERS "t" (identity field codec). -/
